@@ -598,6 +598,9 @@ func c04Base(r *Rng) map[string]any {
 			"discriminator", jobj("propertyName", "name")),
 		"Map", jobj("type", "object", "additionalProperties", jobj("type", "string", "format", "date")),
 		"Any", jobj("anyOf", []any{jobj("type", "boolean"), jref("schemas", "Num")}),
+		// examples that a date / date-time reading must leave as written (midnight UTC included)
+		"Stamp", jobj("type", "string", "format", "date-time", "example", "2024-01-01T00:00:00Z"),
+		"Day", jobj("type", "string", "format", "date", "example", "2024-01-01"),
 	)
 	components := jobj(
 		"schemas", schemas,
